@@ -124,6 +124,58 @@ def flood():
     return out
 
 
+def failed_start_then_stop():
+    """a watch whose emitter fails in start() (the directory vanished); start() is retried and works, another watch is
+    scheduled, then stop(): it must return without raising and every thread must be gone"""
+    out = []
+    fail = {"on": True}
+
+    class Em(EventEmitter):
+        def on_thread_start(self):
+            if fail["on"] and self.watch.path == "/c06-gone":
+                raise OSError(2, "No such file or directory", self.watch.path)
+
+        def queue_events(self, timeout):
+            self.stopped_event.wait(0.05)
+    obs = BaseObserver(Em, timeout=0.05)
+    obs.schedule(FileSystemEventHandler(), "/c06-gone")
+    try:
+        obs.start()
+        out.append("start() did not raise for an emitter that cannot start")
+    except OSError:
+        pass
+    fail["on"] = False
+    err = []
+
+    def go():
+        try:
+            obs.start()
+            obs.schedule(FileSystemEventHandler(), "/c06-other")
+            obs.stop()
+        except Exception as e:  # noqa: BLE001
+            err.append(repr(e))
+    ok = with_deadline(go, 5, "start(); schedule(); stop() after a failed start()", out)
+    if err:
+        out.append(f"stop() after a failed and a retried start() raised {err[0]}")
+    if ok:
+        obs.join(3)
+    time.sleep(0.2)
+    left = lib_threads()
+    if left:
+        out.append(f"threads left after stop()+join(): {[t.name for t in left]}")
+        for t in left:
+            if hasattr(t, "stop"):
+                try:
+                    t.stop()
+                except Exception:
+                    pass
+        try:
+            obs.event_queue.put_nowait(BaseObserver.stop_event)
+        except Exception:
+            pass
+    return out
+
+
 def stop_during_start(which):
     """observer.start() is starting its emitters (no registry lock) while another thread calls stop() / unschedule_all():
     the emitter caught between on_thread_start() and Thread.start() must still be told to stop - after stop()+join()
@@ -163,6 +215,9 @@ def stop_during_start(which):
 def main():
     if REPLAY is not None:
         c = REPLAY
+        if c["kind"] == "failed-start":
+            pr = failed_start_then_stop()
+            replay_result(bool(pr), pr[:2])
         if c["kind"] == "start-race":
             pr = stop_during_start(c["which"])
             replay_result(bool(pr), pr[:2])
@@ -191,6 +246,10 @@ def main():
         pr = c18_battery.SCEN[name]()
         if pr:
             bat.fail("C06." + name, pr[0], {"kind": "deb", "name": name}, "EventDebouncer.run")
+    bat.case("failed-start-then-stop")
+    pr = failed_start_then_stop()
+    if pr:
+        bat.fail("C06.stop-after-failed-start", pr[0], {"kind": "failed-start"}, "BaseObserver.unschedule_all")
     for which in ("stop", "unschedule_all"):
         bat.case(("start-race", which))
         pr = stop_during_start(which)
